@@ -324,6 +324,9 @@ thread_local! {
 pub fn set_quiet(q: bool) {
     QUIET.with(|x| *x.borrow_mut() = q);
 }
+pub fn is_quiet() -> bool {
+    quiet()
+}
 fn quiet() -> bool {
     QUIET.with(|x| *x.borrow())
 }
